@@ -72,3 +72,17 @@ open MdIt.PipelineH
 #check @docH_html_block_ranges
 #print axioms docH_block_ranges
 #print axioms docH_html_block_ranges
+
+-- last follow-up: HtmlInline ranges
+#check @MdIt.InlineH.parseInlineH_ranges_window_raw
+#check @MdIt.InlineH.memoSafeH_flat
+#check @MdIt.BlockH.parseBlocksH_upToAll
+#check @docH_html_inline_ranges_of
+#check @docH_html_inline_ranges
+#check @docH_html_inline_ranges_memoSafe
+#print axioms MdIt.InlineH.parseInlineH_ranges_window_raw
+#print axioms MdIt.InlineH.memoSafeH_flat
+#print axioms MdIt.BlockH.parseBlocksH_upToAll
+#print axioms docH_html_inline_ranges_of
+#print axioms docH_html_inline_ranges
+#print axioms docH_html_inline_ranges_memoSafe
